@@ -287,10 +287,17 @@ impl<'p, C: SimCfg> World<'p, C> {
         ggrs::verif::set_clock_bump_micros(cfg.clock_bump_us);
         ggrs::verif::set_rng_state(self.nodes.get(i).map(|n| n.rng).unwrap_or_else(|| mix(cfg.rng_seed ^ i as u64)));
         self.core.borrow_mut().now_us = now;
+        crate::alloc::reset_max();
     }
     fn leave(&mut self, i: usize) {
         self.nodes[i].rng = ggrs::verif::rng_state();
         ggrs::verif::set_clock_bump_micros(0);
+        let m = crate::alloc::max_request();
+        if m > crate::alloc::LIMIT {
+            let g = self.nodes[i].game.g;
+            self.violate("c08.allocation", i, g, format!("node {i}: a session call requested a single allocation of {m} bytes"));
+        }
+        crate::alloc::reset_max();
     }
 
     fn violate(&mut self, class: &str, node: usize, frame: i32, text: String) {
@@ -503,6 +510,19 @@ impl<'p, C: SimCfg> World<'p, C> {
         let to = inj.to;
         let from = inj.from_addr as usize;
         let real_magic = self.core.borrow().last_magic.get(&(from, to)).copied();
+        let known = from < self.nodes.len() && self.nodes[to].watch.contains_key(&inj.from_addr);
+        if known {
+            let synced = self.nodes[to].watch.get(&inj.from_addr).is_some_and(|w| w.running);
+            if matches!(&inj.payload, Payload::Msg { magic: MagicSel::Wrong, .. }) && !synced {
+                // before the handshake with that address completes the endpoint cannot know the
+                // right magic: out of the statement's scope
+                *self.probes.extra.entry("forged_skipped_before_handshake").or_insert(0) += 1;
+                return;
+            }
+            *self.probes.extra.entry("forged_from_known_address").or_insert(0) += 1;
+        } else {
+            *self.probes.extra.entry("forged_from_unknown_address").or_insert(0) += 1;
+        }
         let bytes = match &inj.payload {
             Payload::Raw(b) => Some(b.clone()),
             Payload::Msg { magic, body } => {
@@ -515,8 +535,12 @@ impl<'p, C: SimCfg> World<'p, C> {
             }
             Payload::MutateLastInput(mu) => {
                 let last = self.core.borrow().last_input.get(&(from, to)).cloned();
-                last.map(|mut m| {
+                let mut skip = false;
+                let r = last.map(|mut m| {
                     if let MBody::Input(inp) = &mut m.body {
+                        let orig = ggrs::verif::decode(&[], &inp.bytes).unwrap_or_default();
+                        let size = orig.first().map(|f| f.len()).unwrap_or(0);
+                        let mut payload_changed = true;
                         match mu {
                             InputMutation::Bytes(b) => inp.bytes = b.clone(),
                             InputMutation::FlipBit(n) => {
@@ -531,22 +555,52 @@ impl<'p, C: SimCfg> World<'p, C> {
                             }
                             InputMutation::StatusCount(n) => {
                                 inp.peer_connect_status.resize(*n, MConn { disconnected: false, last_frame: -1 });
+                                payload_changed = false;
                             }
-                            InputMutation::NegativeStart(s) => inp.start_frame = -(s.abs().max(1)),
+                            InputMutation::NegativeStart(s) => {
+                                inp.start_frame = -(s.abs().max(1));
+                                payload_changed = false;
+                            }
                             InputMutation::WrongSize => {
-                                // re-encode the frames against an empty reference with one frame a byte longer;
-                                // decoding against the receiver's reference then yields frames of the wrong size
-                                if let Ok(mut frames) = ggrs::verif::decode(&[], &inp.bytes) {
-                                    if let Some(f) = frames.last_mut() {
-                                        f.push(0x5a);
-                                    }
-                                    inp.bytes = ggrs::verif::encode(&[], &frames);
+                                // re-encode the frames with the last one a byte longer: the receiver
+                                // decodes frames of the wrong size
+                                let mut frames = orig.clone();
+                                if let Some(f) = frames.last_mut() {
+                                    f.push(0x5a);
                                 }
+                                inp.bytes = ggrs::verif::encode(&[], &frames);
+                            }
+                            InputMutation::DoubleSize => {
+                                let mut frames = orig.clone();
+                                if let Some(f) = frames.last_mut() {
+                                    let n = f.len();
+                                    f.extend((0..n).map(|i| 0xa5u8.wrapping_add(i as u8)));
+                                }
+                                inp.bytes = ggrs::verif::encode(&[], &frames);
+                            }
+                        }
+                        if payload_changed {
+                            // Only payloads that are NOT a valid encoding of right-sized frames are in the
+                            // statement's scope: a forgery that is well formed in every respect (right
+                            // address, right magic, valid encoding, right sizes) is indistinguishable from
+                            // real traffic and is not what the property is about.
+                            let well_formed = ggrs::verif::decode(&[], &inp.bytes).is_ok_and(|fr| !fr.is_empty() && fr.iter().all(|f| f.len() == size));
+                            if std::env::var("VERIF_TRACE").is_ok() {
+                                println!("  inject {mu:?}: original frames {:?}, mutated {:?} start {} well_formed {well_formed}", orig, ggrs::verif::decode(&[], &inp.bytes), inp.start_frame);
+                            }
+                            if well_formed {
+                                skip = true;
                             }
                         }
                     }
                     m.to_bytes()
-                })
+                });
+                if skip {
+                    *self.probes.extra.entry("forged_skipped_well_formed").or_insert(0) += 1;
+                    None
+                } else {
+                    r
+                }
             }
         };
         if let Some(b) = bytes {
@@ -773,7 +827,8 @@ impl<'p, C: SimCfg> World<'p, C> {
                 bad.push(format!("endpoint for handle {hnd}: {} unacknowledged inputs", e.pending_output));
             }
             // a function of the configuration and the documented 128-entry output queue only
-            if e.recv_inputs > (2 * cfg.max_prediction).max(129) + 2 {
+            // one packet's worth of inputs may be added before the next pruning
+            if e.recv_inputs > 2 * (2 * cfg.max_prediction).max(129) + 4 {
                 bad.push(format!("endpoint for handle {hnd}: {} remembered received inputs (window {})", e.recv_inputs, cfg.max_prediction));
             }
             if e.pending_checksums > 64 {
@@ -1490,6 +1545,9 @@ pub fn ev_name(e: &Ev) -> &'static str {
 
 /// Executes a plan with the predictor it names.
 pub fn run_plan(plan: &Plan) -> Result<RunOut, String> {
+    if matches!(plan.mode, Mode::DecodeSweep { .. } | Mode::DecodeMutations { .. }) {
+        return Ok(crate::sweep::run(plan));
+    }
     if let Mode::SyncTest { check_distance, frames, expect_reject } = plan.mode {
         return if plan.cfg.predict_default {
             crate::synctest::run::<CfgDefault>(plan, check_distance, frames, expect_reject)
